@@ -307,6 +307,8 @@ class ExprMixin:
             return [(SFunc('method', v, attr), st)]
         if isinstance(v, SClass):
             return [(SFunc('classattr', v.name, attr), st)]
+        if isinstance(v, SFunc) and v.how == 'superobj':
+            return [(SFunc('supermethod', v.a[0], attr), st)]
         if isinstance(v, SFunc) and v.how == 'builtin' and v.a[0] in ('dict', 'list', 'set'):
             return [(SFunc('classattr', v.a[0], attr), st)]
         if isinstance(v, SFunc) and v.how == 'module':
@@ -329,6 +331,11 @@ class ExprMixin:
         return out
 
     def getitem(self, obj, idx, st, node=None):
+        if isinstance(obj, SLit) and obj.kind == 'list':
+            i = self.concrete_int(idx)
+            if i is None or not (-len(obj.items) <= i < len(obj.items)):
+                raise Unsupported('display indexed out of range / symbolically')
+            return [(obj.items[i], st)]
         if isinstance(obj, STuple):
             i = self.concrete_int(idx)
             if i is None:
@@ -397,8 +404,16 @@ class ExprMixin:
         return out
 
     def ev_slice(self, node, st):
+        out = []
+        for obj, s in self.ev(node.value, st):
+            if is_exc(obj):
+                out.append((obj, s))
+            else:
+                out.extend(self.slice_of(obj, node, s))
+        return out
+
+    def slice_of(self, obj, node, st):
         sl = node.slice
-        obj = self.ev1(node.value, st)
         lo = self.concrete_int(self.ev1(sl.lower, st)) if sl.lower is not None else None
         if isinstance(obj, SSeq) and lo == -1 and sl.upper is None and sl.step is None:
             # seq[-1:] : the last element as a sequence of length min(n, 1)
@@ -409,6 +424,13 @@ class ExprMixin:
                 else:
                     out.append((STuple([]), s))
             return out
+        if (isinstance(obj, SRef) and obj.cls.kind == 'list' and sl.lower is None and sl.upper is None
+                and sl.step is None):
+            s2 = st.copy()          # lst[:] is a fresh list with the same items
+            r = self.new_ref(s2, obj.cls)
+            self.hstore(s2, r, 'elems', self.hload(s2, obj, 'elems'))
+            self.hstore(s2, r, 'len', self.hload(s2, obj, 'len'))
+            return [(r, s2)]
         if isinstance(obj, SVal):      # a slice of an opaque sequence is an opaque sequence
             return [(SVal(self.fresh(st, 'opaque_slice', Val)), st)]
         raise Unsupported('slice expression at line %d' % node.lineno)
@@ -689,7 +711,7 @@ class ExprMixin:
         return [(r, st2)]
 
 
-BUILTIN_NAMES = {'hash', 'len', 'range', 'sum', 'min', 'max', 'int', 'float', 'isinstance', 'callable', 'getattr',
+BUILTIN_NAMES = {'super', 'hash', 'len', 'range', 'sum', 'min', 'max', 'int', 'float', 'isinstance', 'callable', 'getattr',
                  'iter', 'next', 'list', 'sorted', 'abs', 'bool', 'tuple', 'dict', 'set', 'hasattr', 'enumerate',
                  'zip', 'reversed', 'str', 'repr', 'type', 'id', 'print', 'object', 'frozenset', 'bytes'}
 EXC_NAMES = {'KeyError', 'IndexError', 'ValueError', 'TypeError', 'AttributeError', 'StopIteration', 'OSError',
